@@ -5954,7 +5954,7 @@ const InstDB::RWInfo InstDB::rw_info_b_table[] = {
   { InstDB::RWInfo::kCategoryGeneric   , 0 , { 10, 79, 9 , 0 , 0 , 0  } }, // #153 [ref=1x]
   { InstDB::RWInfo::kCategoryGeneric   , 12, { 35, 0 , 0 , 0 , 0 , 0  } }, // #154 [ref=1x]
   { InstDB::RWInfo::kCategoryGeneric   , 0 , { 85, 0 , 0 , 0 , 0 , 0  } }, // #155 [ref=1x]
-  { InstDB::RWInfo::kCategoryGeneric   , 59, { 35, 86, 3 , 3 , 0 , 0  } }, // #156 [ref=2x]
+  { InstDB::RWInfo::kCategoryGeneric   , 59, { 88, 86, 3 , 3 , 0 , 0  } }, // #156 [ref=2x]
   { InstDB::RWInfo::kCategoryGeneric   , 56, { 77, 78, 78, 0 , 0 , 0  } }, // #157 [ref=2x]
   { InstDB::RWInfo::kCategoryGeneric   , 22, { 11, 3 , 3 , 0 , 0 , 0  } }, // #158 [ref=4x]
   { InstDB::RWInfo::kCategoryGeneric   , 7 , { 49, 5 , 0 , 0 , 0 , 0  } }, // #159 [ref=1x]
@@ -6062,7 +6062,8 @@ const InstDB::RWInfoOp InstDB::rw_info_op_table[] = {
   { 0x000000000000FFFCu, 0x0000000000000000u, 0xFF, 0, { 0 }, OpRWFlags::kRead }, // #84 [ref=8x]
   { 0x0000000000000000u, 0x0000000000000000u, 0x00, 0, { 0 }, OpRWFlags::kRW | OpRWFlags::kZExt | OpRWFlags::kRegPhysId }, // #85 [ref=1x]
   { 0x0000000000000000u, 0x0000000000000000u, 0xFF, 0, { 0 }, OpRWFlags::kWrite | OpRWFlags::kZExt | OpRWFlags::kConsecutive }, // #86 [ref=2x]
-  { 0x00000000FFFFFFFFu, 0x00000000FFFFFFFFu, 0xFF, 0, { 0 }, OpRWFlags::kRW | OpRWFlags::kZExt }  // #87 [ref=3x]
+  { 0x00000000FFFFFFFFu, 0x00000000FFFFFFFFu, 0xFF, 0, { 0 }, OpRWFlags::kRW | OpRWFlags::kZExt }, // #87 [ref=3x]
+  { 0x0000000000000000u, 0x00000000000000FFu, 0xFF, 2, { 0 }, OpRWFlags::kWrite | OpRWFlags::kZExt }  // #88 [ref=1x]
 };
 
 const InstDB::RWInfoRm InstDB::rw_info_rm_table[] = {
